@@ -553,6 +553,12 @@ MUTANTS = [
          old="            for m in sorted(alleles[a])\n", new="            for m in alleles[a]\n"),
     dict(name="R3 novel list of the major solution in set order", module="major", expect="C14.R3",
          old="                added=list(novel_muts),", new="                added=[m for m in func_muts if m in novel_muts],"),
+    dict(name="R3 writer sorts rows on a partial key", module="diplotype", expect="C14.R3",
+         old="            for m in sorted(mutations):\n                fn = gene.get_functional(m, False)",
+         new="            for m in sorted(mutations, key=lambda m: m.pos):\n                fn = gene.get_functional(m, False)"),
+    dict(name="R3 writer iterates the set directly", module="diplotype", expect="C14.R3",
+         old="            for m in sorted(mutations):\n                fn = gene.get_functional(m, False)",
+         new="            for m in mutations:\n                fn = gene.get_functional(m, False)"),
     dict(name="R4 stage reads back from the debug store", module="cn", expect="C14.R4",
          old="    if not result:\n        log.debug(\"[cn] solution= []\")",
          new="    if json[gene.name][\"cn\"][\"data\"] and not result:\n        log.debug(\"[cn] solution= []\")"),
